@@ -373,6 +373,8 @@ def shards(tier: str) -> List[Dict[str, Any]]:
     for name, k in SLOTS.items():
         if k == 2:
             combos = [list(t) + [None] for t in itertools.product(range(6), repeat=2)]
+        elif tier == "quick" and name.startswith("unrecognised"):
+            combos = [[0, 2, 4], [4, 0, 2], [2, 4, 0]]
         elif tier == "quick":
             combos = [list(t) for t in itertools.product((0, 2, 4), repeat=3)]  # <, ==, >=
         else:
